@@ -75,7 +75,10 @@ def main():
                 continue
             fired = sorted(p for p, v in res["props"].items() if v.get("violations"))
             missing = [c for c in want if c not in fired]
-            if missing or not fired:
+            if meta.get("outside_family") and not fired:
+                print("DOCUMENTED seeded %-10s not decided statically (%s)" % (sid, meta["outside_family"][:90]))
+                rows.append({"kind": "seeded", "name": sid, "outcome": "DOCUMENTED-MISS"})
+            elif missing or not fired:
                 bad += 1
                 print("MISSED     seeded %-10s expected %s, fired %s" % (sid, want, fired))
                 rows.append({"kind": "seeded", "name": sid, "outcome": "MISSED", "fired": fired, "expected": want})
